@@ -168,3 +168,51 @@ def run_c04_duals(case):
             out.append("d " + " ".join("%s,%s" % tuple(q(x) for x in impl.bounds_of(kb.obj[i])) for i in (0, 1, 2)))
             res[(name, direction)] = out[-1]
     return {"lines": lines, "impl": out, "meta": {"res": {f"{a}:{b}": v for (a, b), v in res.items()}}}
+
+
+# ------------------------------------------------------------------ C19: clamp and gradients
+
+def run_c19_batch(case):
+    """case: {'clamp': [Fr...], 'neurons': [{'kind','act','b','w':[..],'x':[..]}]}
+    val_clamp on dyadic tensors (value and d/dx), and the upward activation of real neuron objects on point inputs
+    with torch.autograd gradients w.r.t. bias, every weight and every input."""
+    import impl
+    import torch
+    L = impl.lnn()
+    from lnn import _utils
+    lines, out = ["reset"], ["ok"]
+    xs = case["clamp"]
+    if xs:
+        t = torch.tensor([float(x) for x in xs], requires_grad=True)
+        y = _utils.val_clamp(t)
+        y.sum().backward()
+        for x, yv, g in zip(xs, y.detach().tolist(), t.grad.tolist()):
+            lines.append(f"vclamp {q(x)}")
+            out.append(f"g {q(Fr(yv))} {q(Fr(g))}")
+    acts = {"luk": L.NeuralActivation.Lukasiewicz, "lukt": L.NeuralActivation.LukasiewiczTransparent}
+    vals = []
+    for nrn in case["neurons"]:
+        n = len(nrn["w"])
+        props = [L.Proposition(f"p{k}") for k in range(n)]
+        cls = {"and": L.And, "or": L.Or, "implies": L.Implies}[nrn["kind"]]
+        o = cls(*props, activation={"type": acts[nrn["act"]], "bias": float(nrn["b"]),
+                                    "weights": tuple(float(w) for w in nrn["w"]), "bias_learning": True})
+        neuron = o.neuron
+        neuron.bias.requires_grad_(True)
+        neuron.weights.requires_grad_(True)
+        x = torch.tensor([[float(v) for v in nrn["x"]], [float(v) for v in nrn["x"]]], requires_grad=True)   # [bounds, arity], lower = upper
+        y = o.func(x)              # the neuron's upward activation: [2]
+        y[0].backward()
+        db = neuron.bias.grad.item()
+        dw = neuron.weights.grad.tolist()
+        dx = x.grad[0].tolist() if nrn["kind"] != "implies" else None
+        if nrn["kind"] == "implies":
+            # lower bound of x -> y uses the UPPER bound of x and the lower bound of y
+            dx = [x.grad[1][0].item(), x.grad[0][1].item()]
+        lines.append(f"grad {nrn['kind']} {q(nrn['b'])} {','.join(q(w) for w in nrn['w'])} {','.join(q(v) for v in nrn['x'])}")
+        line = f"g {q(Fr(y[0].item()))} {q(Fr(db))} {','.join(q(Fr(g)) for g in dw)} {','.join(q(Fr(g)) for g in dx)}"
+        # the plain Lukasiewicz variant uses torch.clamp (zero gradient when saturated, by design): not compared with the
+        # gradient-transparent model, its VALUE is judged by the oracle
+        out.append(line if nrn["act"] == "lukt" else None)
+        vals.append(line)
+    return {"lines": lines, "impl": out, "meta": {"neuron_lines": vals}}
